@@ -44,7 +44,7 @@ func main() {
 		runRepro()
 		return
 	}
-	c := core.New("C04", "fault_enumeration")
+	c := core.New("C04", "exploration")
 	c.SetRule("one case = one step of a generated history on a real tsdb engine/shard whose database option has a day-type source interval (1s|10s|30s|1m) and a month-type (5m|10m) and/or " +
 		"year-type (1h|2h) rollup interval: flush into 1-4 source families (hours) chosen at calendar edges (first/last hour of a day, adjacent hours sharing a 2h slot, last day of a " +
 		"28/29/30/31-day month, 31 Dec/1 Jan, several days of one month) with C03's block shapes plus a hand-made all-field-types block at the slot-arithmetic edges; ForceRollup, ForceRollup again, " +
@@ -273,7 +273,7 @@ func runChild() {
 		os.Exit(4)
 	}
 	os.Args = []string{os.Args[0], tier}
-	c := core.New("C04", "fault_enumeration")
+	c := core.New("C04", "exploration")
 	var results []*histResult
 	var mu sync.Mutex
 	save := func(running *histSpec) {
@@ -323,7 +323,7 @@ func runHistory(rnd *rand.Rand, spec *histSpec, dir string) (res *histResult) {
 // generation of histories: a function of (seed, tier, index, kind, tz)
 
 var scenarios = []string{"basic", "same-day-hours", "adjacent-hours", "days-of-one-month", "month-boundary", "year-boundary",
-	"compact-before-rollup", "compact-after-rollup", "tick-thresholds", "tick-race", "reopen-with-pending", "target-compaction", "random", "random"}
+	"compact-before-rollup", "compact-after-rollup", "tick-thresholds", "tick-race", "reopen-with-pending", "target-compaction", "flush-during-rollup", "random", "random"}
 
 func genSpec(rnd *rand.Rand, j job, c *core.Ctx) *histSpec {
 	s := &histSpec{Idx: j.Idx, Kind: j.Kind, TZ: j.TZ, Seed: c.Seed, Tier: c.Tier}
@@ -450,6 +450,10 @@ func genSpec(rnd *rand.Rand, j job, c *core.Ctx) *histSpec {
 		spot(year, month, day, rnd.Intn(24), "hour")
 		spot(year, month, day, rnd.Intn(24), "hour")
 		steps(fl(0), fl(0), fl(0), fl(0), fl(1), "tick", "rollup", fl(0), fl(1), "rollup")
+	case "flush-during-rollup":
+		spot(year, month, day, rnd.Intn(24), "hour")
+		spot(year, month, day, rnd.Intn(24), "hour")
+		steps(fl(0), fl(1), "rollup+flush:0", "rollup", fl(0), fl(1), fl(1), "rollup+flush:1", "rollup+flush:0", "reopen", "rollup", "rollup")
 	case "reopen-with-pending":
 		spot(year, month, day, 23, "last-hour-of-day")
 		spot(year, month, day, 0, "first-hour-of-day")
@@ -486,8 +490,10 @@ func genSpec(rnd *rand.Rand, j job, c *core.Ctx) *histSpec {
 			switch r := rnd.Intn(20); {
 			case r < 8:
 				steps(fl(rnd.Intn(nSpots)))
-			case r < 13:
+			case r < 12:
 				steps("rollup")
+			case r < 13:
+				steps(fmt.Sprintf("rollup+flush:%d", rnd.Intn(nSpots)))
 			case r < 14:
 				steps("tick")
 			case r < 15:
@@ -502,6 +508,18 @@ func genSpec(rnd *rand.Rand, j job, c *core.Ctx) *histSpec {
 		}
 		steps("rollup", "rollup")
 	}
+	// thorough tier only: blocks with thousands of series (several roaring containers, tables far beyond the 256 KiB
+	// write buffer: the crash part then also sees images inside the write of a target table)
+	if !c.Quick() && (j.Kind == "direct" && j.Idx%750 == 11 || j.Kind == "crash" && j.Idx%100 == 50) {
+		s.Scenario += "+big-blocks"
+		s.Src = 10 * msSecond
+		s.Gen = blocks.GenOptions{MaxMetrics: 2, MaxPool: 24, MaxSlot: 359, MaxFields: 3, MaxBaseLen: 5, BigSeries: []int{3000, 66000, 20000}[j.Idx%3]}
+		if j.Kind == "crash" {
+			s.Gen.BigSeries = 20000
+		} else {
+			s.Steps = []string{"flush:0", "flush:0", "rollup", "flush:0", "rollup", "rollup", "reopen", "rollup"}
+		}
+	}
 	for _, sp := range s.Spots {
 		s.SpotsAt = append(s.SpotsAt, fmtTS(sp.Start)+" ("+sp.Kind+")")
 	}
@@ -513,7 +531,7 @@ func genSpec(rnd *rand.Rand, j job, c *core.Ctx) *histSpec {
 // one source family (10 s, 2024-02-29 23:00 UTC), flush, flush, Family.Compact, Store.ForceRollup.
 func runRepro() {
 	os.Args = []string{os.Args[0], "quick"}
-	c := core.New("C04", "fault_enumeration")
+	c := core.New("C04", "exploration")
 	rnd := c.Rand("repro")
 	spec := &histSpec{Idx: 0, Kind: "direct", Scenario: "repro", TZ: os.Getenv("TZ"), Seed: c.Seed, Tier: "quick", Src: 10 * msSecond, Month: 5 * msMinute, Year: msHour,
 		Spots: []calendarSpot{{Start: hourStart(2024, 2, 29, 23), Kind: "last-hour-of-leap-february"}}, Steps: []string{"flush:0", "flush:0", "compact:0", "rollup"},
